@@ -30,7 +30,8 @@ RULE = (
     "systems = hand-listed dataset DAG shapes (chains, diamonds, overloads, pre-set/default options, nocache nodes mixed "
     "in, effects, Map over a cached dataset, with_options derivatives); actions = every dictionary of the product "
     "alphabet x {exact, +junk, junk changed, top-level order reversed} x entry; BFS with canonical-state dedup to depth 2 "
-    "(3 for small alphabets; thorough 3/4); a transition is non-trivial when at least one cached body is skipped "
+    "(3 for small alphabets; thorough 3/4); plus all histories of length <= 4 (5 thorough) mixing evaluations with "
+    "add_effects / disable_effects / enable_effects / set_cache on a live dataset, replayed on fresh objects; a transition is non-trivial when at least one cached body is skipped "
     "because of a cache hit; distinct_nontrivial counts systems with such transitions"
 )
 ASSUMPTIONS = [
@@ -88,6 +89,10 @@ def _systems():
     S.append(("bind-to-datasets", [("ds", "bd", {"params": [bd]})], [A3, B2]))
     cc = ("cached", ("apply", ("opt", "A"), ("fn", "f")), "c")
     S.append(("cached-combinator", [cc, ("ds", "usecc", {"params": [cc, ("opt", "B", ("val", 0))]})], [A3, B3]))
+    # datasets whose VALUE is falsy / None must be memoized like any other
+    for lit in ("None", "0", "''", "[]", "False"):
+        ld = ("ds", "loader", {"params": [("opt", "A")], "callback": ("fn", f"f_const:{lit}"), "effects": ["el"]})
+        S.append((f"falsy-value:{lit}", [("ds", "use", {"params": [ld, ("ds", "mid", {"params": [ld]})]}), ld], [A3]))
     three = ("ds", "three", {"params": [inner, mid2, ("ds", "leaf3", {"params": [("opt", "C", ("val", 0))]})]})
     S.append(("three-deps", [three], [A2, ("C", [ABSENT, 1])]))
     return S
@@ -107,6 +112,8 @@ def cases(tier, seed):
         else:
             depth = 4 if n <= 9 else 3
         out.append(("sys", label, entries, spec, depth))
+    for first in range(len(DYN_ACTIONS)):
+        out.append(("dyn", first, 4 if tier == "quick" else 5))
     return out
 
 
@@ -170,9 +177,104 @@ def _cached_names(entries):
     return names
 
 
+DYN_ACTIONS = [("eval", {"A": 1}), ("eval", {"A": 2}), ("eval", {"A": 1, "ZZ": 1}), ("add_effect",), ("disable_effects",), ("enable_effects",),
+               ("set_cache",), ("eval_user", {"A": 1}), ("eval_user", {"A": 2})]
+
+
+def run_dynamic(hist):
+    """Replay one history of evaluations mixed with stateful reconfiguration of a dataset (add_effects,
+    disable/enable effects, set_cache) on fresh objects.  Model: current effect list, toggle, memo."""
+    from labrea import Option, dataset
+    from labrea.cache import MemoryCache
+
+    log = []
+
+    def body(a=Option("A")):
+        log.append(("body", "d"))
+        return ("d", a)
+
+    def e0(v):
+        log.append(("effect", "e0", v))
+
+    def late(v):
+        log.append(("effect", "late", v))
+
+    d = dataset(body, effects=[e0])
+
+    def ubody(x=d):
+        log.append(("body", "user"))
+        return ("user", x)
+
+    user = dataset(ubody)
+    effects = ["e0"]
+    enabled = True
+    memo_d, memo_u = set(), set()
+    for i, act in enumerate(hist):
+        del log[:]
+        if act[0] == "add_effect":
+            if "late" in effects:
+                return None, False
+            d.add_effects(late)
+            effects.append("late")
+        elif act[0] == "disable_effects":
+            d.disable_effects()
+            enabled = False
+        elif act[0] == "enable_effects":
+            d.enable_effects()
+            enabled = True
+        elif act[0] == "set_cache":
+            d.set_cache(MemoryCache())
+            memo_d = set()
+        else:
+            o = dict(act[1])
+            a = o["A"]
+            target = d if act[0] == "eval" else user
+            got = observe(None, lambda: target.evaluate(copy.deepcopy(o)))
+            want = ("d", a) if act[0] == "eval" else ("user", ("d", a))
+            if not got.ok or got.value != want:
+                return (i, f"value {got!r}, expected {want!r}"), True
+            need_d = (act[0] == "eval" or a not in memo_u) and a not in memo_d
+            if act[0] == "eval_user":
+                memo_u.add(a)
+            nb = sum(1 for e in log if e[:2] == ("body", "d"))
+            if nb != (1 if need_d else 0):
+                return (i, f"body of d ran {nb}x, expected {1 if need_d else 0}; log={log}"), True
+            if need_d:
+                memo_d.add(a)
+            exp_eff = [(n, ("d", a)) for n in effects] if (need_d and enabled) else []
+            got_eff = [(e[1], e[2]) for e in log if e[0] == "effect"]
+            if got_eff != exp_eff:
+                return (i, f"effects ran {got_eff}, expected {exp_eff} (current effect list {effects}, enabled={enabled})"), True
+    return None, True
+
+
 def run_case(case):
     res = {"failures": [], "states": 0, "transitions": 0, "hits": 0, "systems": 0, "nontrivial": 0, "samples": [],
            "closed": 0, "body_runs": 0, "effect_runs": 0}
+    if case[0] == "dyn":
+        _, first, L = case
+        for n in range(1, L + 1):
+            for rest in itertools.product(range(len(DYN_ACTIONS)), repeat=n - 1):
+                hist = [DYN_ACTIONS[first]] + [DYN_ACTIONS[j] for j in rest]
+                bad, ok = run_dynamic(hist)
+                if not ok:
+                    continue
+                res["transitions"] += len(hist)
+                res["states"] += 1
+                if bad and not res["failures"]:
+                    res["failures"].append({"sig": f"C02|dynamic|{hist[: bad[0] + 1]!r}", "what": f"after the reconfiguration history {hist[: bad[0] + 1]!r}",
+                                            "detail": bad[1], "case": ("dyn1", hist[: bad[0] + 1])})
+        res["systems"] = 1
+        res["nontrivial"] = 1
+        return res
+    if case[0] == "dyn1":
+        hist = [tuple(a) if len(a) == 1 else (a[0], dict(a[1])) for a in case[1]]
+        bad, ok = run_dynamic(hist)
+        res["states"] = 1
+        res["transitions"] = len(hist)
+        if bad:
+            res["failures"].append({"sig": "replay", "what": "reconfiguration history", "detail": bad[1], "case": case})
+        return res
     if case[0] == "hist":
         _, label, entries, spec, hist = case
         fl = _replay(label, entries, spec, hist)
